@@ -18,6 +18,12 @@ into
   * an ENUM TABLE   (match over variants: list of (source variant, target variant), wildcard flag,
                      variant lists of both enums, pinned fallbacks),
   * a STRUCT TABLE  (struct literal / `T::new(..)`: list of (target field, accessor chains)),
+  * and, for the struct tables named in ffi_fallbacks.json `config_wrappers` (the CONFIGURATION
+    conversions: `fn convert_outstation_config`, `TryFrom<ffi::AssociationConfig>`, ...), a CONFIG TABLE
+    (native field, binding accessor, wrapper): the wrapper is the text of the field expression with the
+    accessor abstracted to `$`, looked up in the closed vocabulary WRAPPERS (`Some($)` = some,
+    `Timeout::from_duration($)?` = timeout, ...; anything else is emitted as `unknown:<text>` and
+    breaks the table theorem), next to the reviewed wrapper of that field,
   * or it must be listed in ffi_skipped.json with a reason and the hash of its text.
 Anything else makes the translator fail loudly.
 
@@ -792,6 +798,67 @@ def add_dispatch_table(model, ctx, scrut, arms, name):
     return "table"
 
 
+# ------------------------------------------------------------------------------------------------
+# wrappers of configuration conversions: WHAT is done to the accessor on its way into the field
+# (closed vocabulary: the text of the field expression with the accessor abstracted to `$`)
+
+WRAPPERS = {
+    "$": "id",
+    "Some($)": "some",
+    "Some($ as usize)": "some-usize",
+    "$ as usize": "usize",
+    "$.into()": "into",
+    "$.clone().into()": "into",
+    "EndpointAddress::try_new($)?": "endpoint-address",
+    "BufferSize::new($ as usize)?": "buffer-size",
+    "Timeout::from_duration($)?": "timeout",
+    "Timeout::from_duration(Duration::from_millis($))?": "timeout",
+    "Timeout::from_millis($)?": "timeout",
+    "if$==Duration::default(){None}else{Some($)}": "zero-none",
+    "if$==Duration::from_secs(0){None}else{Some($)}": "zero-none",
+    "convert_event_classes($)": "fn:convert_event_classes",
+    "convert_classes($)": "fn:convert_classes",
+    "convert_auto_time_sync(&$)": "fn:convert_auto_time_sync",
+    "to_feature($)": "fn:to_feature",
+    "RetryStrategy::new($.min_delay(),$.max_delay())": "ctor:RetryStrategy",
+    "CStr::from_ptr($).to_str()?.parse()?": "parse-str",
+}
+WRAPPER_VOCABULARY = sorted(set(WRAPPERS.values()) | {"match"})
+
+
+def wrapper_of(e, ctx):
+    """-> (wrapper token or `unknown:<text>`, [accessors], abstract text).  A field written as a bare
+    let-bound name stands for the expression bound to it; the first accessor applied to a root
+    (`config.x()` / `config.x`) is the accessor, whatever follows it belongs to the wrapper"""
+    e = strip_parens(e)
+    for _ in range(4):
+        if re.fullmatch(IDENT, e) and e in ctx.env and e not in ctx.roots:
+            e = strip_parens(ctx.env[e])
+    accs = []
+
+    def repl(m):
+        accs.append(norm(m.group(2)))
+        return "$"
+    if ctx.roots:
+        e = re.sub(r"(?<![\w.:$])(%s)\s*\.\s*(%s)\b(\s*\(\s*\))?" % ("|".join(re.escape(r) for r in ctx.roots), IDENT), repl, e)
+    text = re.sub(r"\s+", " ", e).strip()
+    text = re.sub(r"\s*([^\w\s$])\s*", r"\1", text)       # no blank next to punctuation
+    text = re.sub(r"\s*\$\s*(?![\w])", "$", text)
+    text = re.sub(r"\$(as\b)", r"$ \1", text)
+    text = re.sub(r",([)}])", r"\1", text)                   # rustfmt's trailing commas
+    if text.startswith("match$") and text.endswith("}"):
+        return "match", _uniq(accs), text                    # the arms are an enum table of their own
+    return WRAPPERS.get(text, "unknown:" + text), _uniq(accs), text
+
+
+def _uniq(xs):
+    out = []
+    for a in xs:
+        if a not in out:
+            out.append(a)
+    return out
+
+
 class Unknown(Exception):
     pass
 
@@ -856,7 +923,9 @@ def add_struct_table(model, ctx, literal, variant_prefix=None, fields=None, ctor
         const = None
         if not chains:
             const = re.sub(r"\s+", "", e0)
-        rows.append({"field": norm(f), "raw": f, "chains": chains, "const": const})
+        w, accs, wtext = wrapper_of(e, ctx)
+        rows.append({"field": norm(f), "raw": f, "chains": chains, "const": const,
+                     "wrapper": w, "accessors": accs, "wrapper_text": wtext})
     return t
 
 
@@ -1228,6 +1297,21 @@ def attach_pins(model):
             fdevs.append((d["table"], norm(d["field"])))
         else:
             model.problems.append("ffi_fallbacks.json: known deviation without kind enum|field")
+    # configuration conversions: (native field, binding accessor, wrapper) rows + the reviewed wrappers
+    model.config_tables = []
+    for name, ent in fb.get("config_wrappers", {}).items():
+        t = next((t for t in model.struct_tables if t["name"] == name), None)
+        if t is None:
+            model.problems.append("ffi_fallbacks.json: config_wrappers[%r] matches no struct table (stale pin)" % name)
+            continue
+        for v in ent.values():
+            if v not in WRAPPER_VOCABULARY and ent.get("why") != v:
+                model.problems.append("ffi_fallbacks.json: config_wrappers[%r]: %r is not in the wrapper vocabulary" % (name, v))
+        rows = [(r["field"], "+".join(r["accessors"]), r["wrapper"]) for r in t["fields"]]
+        model.config_tables.append({"name": name, "file": t["file"], "line": t["line"], "rows": rows,
+                                    "texts": [(r["field"], r["wrapper_text"]) for r in t["fields"]],
+                                    "aliases": t["aliases"],
+                                    "pinned": sorted((norm(f), w) for f, w in ent.items() if f != "why")})
     return edevs, fdevs
 
 
@@ -1297,6 +1381,19 @@ def emit(model, devs, out_dir, src_info):
     L.append("(* the tables whose match has a catch-all arm (or ignores its input), by name *)")
     L.append("Definition ffi_wildcard_tables : list string := %s." % clist([t["name"] for t in model.enum_tables if t["wild"]]))
     L.append("")
+    cnames = []
+    for i, t in enumerate(model.config_tables):
+        n = "ct_%d" % i
+        cnames.append(n)
+        L.append("(* %s:%d  configuration conversion: (native field, binding accessor, wrapper) *)" % (t["file"], t["line"]))
+        L.append("Definition %s : config_table := mk_config_table" % n)
+        L.append("  %s" % cs(t["name"]))
+        L.append("  [%s]" % ";\n   ".join("(%s, %s, %s)" % (cs(r[0]), cs(r[1]), cs(r[2])) for r in t["rows"]))
+        L.append("  %s" % clist(t["aliases"], cpair))
+        L.append("  %s." % clist(t["pinned"], cpair))
+    L.append("")
+    L.append("Definition ffi_config_tables : list config_table := [%s]." % "; ".join(cnames))
+    L.append("")
     inv = inverse_pairs(model)
     L.append("(* pairs of tables that convert in opposite directions between the same two enums *)")
     L.append("Definition ffi_inverse_pairs : list (string * string) := %s." % clist(inv, cpair))
@@ -1305,7 +1402,8 @@ def emit(model, devs, out_dir, src_info):
     with open(os.path.join(out_dir, "FfiTables.v"), "w") as f:
         f.write("\n".join(L) + "\n")
     with open(os.path.join(out_dir, "FfiTables.json"), "w") as f:
-        json.dump({"enum_tables": model.enum_tables, "struct_tables": model.struct_tables,
+        json.dump({"enum_tables": model.enum_tables, "struct_tables": model.struct_tables, "config_tables": model.config_tables,
+                   "wrapper_vocabulary": WRAPPER_VOCABULARY,
                    "known_enum_deviations": devs[0], "known_field_deviations": devs[1], "inverse_pairs": inv, "control_flow_matches": model.control_flow,
                    "skipped": sorted(model.skip_used), "source": src_info}, f, indent=1, sort_keys=True)
         f.write("\n")
@@ -1376,11 +1474,14 @@ def main():
     if len(model.enum_tables) < 60 or n_arms < 400 or len(model.struct_tables) < 40:
         die("suspiciously little was extracted: %d enum tables, %d arms, %d struct tables"
             % (len(model.enum_tables), n_arms, len(model.struct_tables)))
+    if len(model.config_tables) < 8:
+        die("only %d configuration tables: ffi_fallbacks.json config_wrappers lost entries" % len(model.config_tables))
     emit(model, devs, OUT, {"out_dir": os.path.relpath(out_dir, VERIF) if out_dir.startswith(VERIF) else out_dir,
                             "files": len(files)})
-    print("gen_ffi: %d enum tables (%d arms), %d struct tables (%d fields), %d control-flow matches ignored, %d units skipped"
+    print("gen_ffi: %d enum tables (%d arms), %d struct tables (%d fields), %d configuration tables (%d rows), %d control-flow matches ignored, %d units skipped"
           % (len(model.enum_tables), n_arms, len(model.struct_tables),
-             sum(len(t["fields"]) for t in model.struct_tables), model.control_flow, len(model.skip_used)))
+             sum(len(t["fields"]) for t in model.struct_tables), len(model.config_tables),
+             sum(len(t["rows"]) for t in model.config_tables), model.control_flow, len(model.skip_used)))
 
 
 def propose(model):
